@@ -1,6 +1,6 @@
 \* exhaustive: cells with |index| <= 4 x {centre cell, no centre cell} x {periodic (square cells), reflective, full (square, 2x1, 1x3 cells)};
 \* act is part of the state; quick: every Apply / ChangePitch step out of every state (all states are initial); thorough (MaxLevel 3) also two steps in a row
-CONSTANTS R = 4  MaxLevel = 2  RectPitches <- RectP  SquarePitches <- SquareP
+CONSTANTS R = 4  MaxLevel = 2  RectPitches <- RectP  SquarePitches <- SquareP  AllSp = FALSE
 INIT Init
 NEXT NextB
 CONSTRAINT Bound
